@@ -285,6 +285,9 @@ def translate() -> tuple[str, dict]:
     cap, tail_to_footer = c13_place.rows_ok(pw['rows'])
     split_ok = True
     side['place'] = {'rows': pw['rows'], 'same_crc_skips': pw['same_crc_skips'], 'facts': pw['facts']}
+    # FileInfo.read / verify on symbolic values: where the bytes after start_data come from, per (arch_len zero?, arch_index None?)
+    rd = c13_place.analyse_readers(finfo)
+    side['readers'] = rd
     idx_fn = [n for n in tree.body if isinstance(n, ast.FunctionDef) and n.name == '_check_arch_index']
     idx_cmp = bool(idx_fn) and any(isinstance(n, ast.If) and ast.unparse(n.test) == 'arch_index is not None and (not 0 <= arch_index < DIR_ARCH_INDEX)'
                                    for n in ast.walk(idx_fn[0]))
@@ -324,6 +327,8 @@ def translate() -> tuple[str, dict]:
         'Definition g_place_table : list prow :=\n  ' + c13_place.coq_rows(pw['rows']) + '.',
         f'Definition g_same_crc_skips : bool := {b(pw["same_crc_skips"])}.',
         'Definition g_preload_capped : bool := place_cut_ok g_place_table.',
+        '(* FileInfo.read / FileInfo.verify executed on symbolic values: (arch_len zero, arch_index None, source of read, source verify checks) *)',
+        'Definition g_read_table : list rrow := ' + c13_place.coq_read_rows(rd['rows']) + '.',
         'Definition g_tail_to_footer : bool := place_dest_ok g_place_table.',
         f'Definition g_chk_idx : bool := {b(chk_idx)}.',
         f'Definition g_chk_name : bool := {b(chk_name)}.',
